@@ -1730,7 +1730,9 @@ class TemplateText:
                         else:
                             out.append(None)
             elif isinstance(n, ast.AugAssign) and name in _target_names(n.target):
-                out.append(None)
+                # `i += <int>`: stays an int if every other binding is one (the caller joins all bindings)
+                step = self.origin(f, n.value, env, depth + 1) if isinstance(n.op, (ast.Add, ast.Sub, ast.Mult)) else None
+                out.append(INT_TXT if step is not None and step.is_int else None)
             elif isinstance(n, (ast.For, ast.AsyncFor)) and name in _target_names(n.target):
                 tgt, it = n.target, n.iter
                 q = self.p.resolve_callable(f, it.func) if isinstance(it, ast.Call) and isinstance(it.func, (ast.Name, ast.Attribute)) else None
@@ -1966,3 +1968,903 @@ class TemplateText:
                 return None
             parts.append(self.origin(t, r, {k: v for k, v in env2.items() if v is not None}, depth + 1))
         return join_txt(parts)
+
+
+# ---------------------------------------------------------------------------
+# concrete interpretation of small functions on probe inputs (R13 converters, R14 find())
+# ---------------------------------------------------------------------------
+# The functions under analysis are *read* (their syntax trees are walked); the only code that runs is a frozen whitelist
+# of pure stdlib callables (int, float, uuid.UUID, datetime.strptime, the `re` engine, str/list/dict methods) applied to
+# probe strings chosen by the rules and to constants written in the analysed source.
+
+class CRaise(Exception):
+    """An exception raised by the interpreted code (class given by qualified name)."""
+
+    def __init__(self, qual: str, exc: Optional[BaseException] = None):
+        super().__init__(qual)
+        self.qual = qual
+        self.exc = exc
+
+
+class _CReturn(Exception):
+    def __init__(self, value):
+        self.value = value
+
+
+class _CBreak(Exception):
+    pass
+
+
+class _CContinue(Exception):
+    pass
+
+
+class CObj:
+    """Instance of a class of the analysed tree."""
+
+    def __init__(self, cls: Class):
+        self.cls = cls
+        self.attrs: Dict[str, object] = {}
+
+    def __repr__(self):
+        return '<%s %r>' % (self.cls.name, self.attrs)
+
+
+class FuncVal:
+    def __init__(self, func: Func, recv=None):
+        self.func = func
+        self.recv = recv
+
+
+class ClassVal:
+    def __init__(self, cls: Class):
+        self.cls = cls
+
+
+class LambdaVal:
+    def __init__(self, node: ast.Lambda, env, ctx):
+        self.node, self.env, self.ctx = node, env, ctx
+
+
+def _externals() -> Dict[str, object]:
+    import datetime
+    import math
+    import uuid
+    ext: Dict[str, object] = {}
+    for nm in ('int', 'float', 'str', 'len', 'bool', 'abs', 'min', 'max', 'list', 'tuple', 'dict', 'set', 'frozenset', 'sorted',
+               'reversed', 'enumerate', 'range', 'zip', 'any', 'all', 'repr', 'ord', 'chr', 'sum', 'isinstance', 'bytes',
+               'ValueError', 'TypeError', 'KeyError', 'IndexError', 'AttributeError', 'OverflowError', 'Exception',
+               'ArithmeticError', 'LookupError', 'AssertionError', 'UnicodeError', 'UnicodeDecodeError', 'UnicodeEncodeError',
+               'BaseException', 'RuntimeError', 'NotImplementedError', 'StopIteration', 'ZeroDivisionError', 'divmod', 'round'):
+        ext['builtins.' + nm] = getattr(__import__('builtins'), nm)
+    for nm in ('isfinite', 'isnan', 'isinf', 'floor', 'ceil', 'trunc', 'inf', 'nan', 'copysign', 'fabs'):
+        ext['math.' + nm] = getattr(math, nm)
+    ext['uuid.UUID'] = uuid.UUID
+    ext['datetime.datetime.strptime'] = datetime.datetime.strptime
+    ext['datetime.datetime'] = datetime.datetime
+    for nm in ('compile', 'match', 'fullmatch', 'search', 'sub', 'subn', 'split', 'findall', 'escape', 'error',
+               'I', 'IGNORECASE', 'A', 'ASCII', 'X', 'VERBOSE', 'M', 'MULTILINE', 'S', 'DOTALL', 'U', 'UNICODE'):
+        ext['re.' + nm] = getattr(re, nm)
+    ext['string.hexdigits'] = string.hexdigits
+    ext['string.digits'] = string.digits
+    ext['string.ascii_letters'] = string.ascii_letters
+    ext['string.whitespace'] = string.whitespace
+    return ext
+
+
+EXTERNALS = _externals()
+_EXT_CALLABLE_IDS = {id(v) for v in EXTERNALS.values() if callable(v)}
+_HIGHER_ORDER = {'builtins.filter', 'builtins.map'}
+# bound methods of plain values that may be called: pure (or mutating only the interpreter's own containers)
+_METHODS = {
+    str: None,      # every str method is pure
+    bytes: None,
+    int: {'bit_length', 'to_bytes', 'is_integer', 'conjugate'},
+    float: {'is_integer', 'hex', 'conjugate', 'as_integer_ratio'},
+    list: {'append', 'extend', 'insert', 'pop', 'remove', 'copy', 'index', 'count', 'sort', 'reverse', 'clear'},
+    tuple: {'index', 'count'},
+    dict: {'get', 'items', 'keys', 'values', 'pop', 'setdefault', 'update', 'copy', 'clear', 'popitem'},
+    set: {'add', 'discard', 'remove', 'copy', 'union', 'intersection', 'difference', 'issubset', 'issuperset', 'isdisjoint', 'update', 'clear', 'pop'},
+    frozenset: {'union', 'intersection', 'difference', 'issubset', 'issuperset', 'isdisjoint', 'copy'},
+    re.Pattern: {'match', 'fullmatch', 'search', 'sub', 'subn', 'split', 'findall'},
+    re.Match: {'group', 'groups', 'groupdict', 'start', 'end', 'span'},
+}
+_PLAIN_ATTRS = {re.Pattern: {'pattern', 'flags', 'groups', 'groupindex'}, re.Match: {'string', 'pos', 'endpos', 'lastindex', 'lastgroup', 're'}}
+
+
+def _exc_qual(exc: BaseException) -> str:
+    t = type(exc)
+    if t.__module__ == 'builtins':
+        return 'builtins.' + t.__name__
+    if t is re.error:
+        return 're.error'
+    return t.__module__ + '.' + t.__qualname__
+
+
+class Concrete:
+    """Interpreter for straight Python over concrete values.  Anything it has
+    no model for is UnknownIdiom (never a verdict).  `attr_hook(obj, name)`
+    supplies attributes of analysed-class instances that no interpreted code
+    has set (NotImplemented = unknown value); `call_hook(fn_value, args,
+    kwargs, node)` sees every call first (NotImplemented = not handled)."""
+
+    def __init__(self, project: Project, where: str, attr_hook=None, call_hook=None, budget: int = 200000):
+        self.p = project
+        self.where = where
+        self.attr_hook = attr_hook
+        self.call_hook = call_hook
+        self.budget = budget
+        self.steps = 0
+        self._const_memo: Dict[str, object] = {}
+        self._const_active: Set[str] = set()
+        self.returns: List[Tuple[Func, ast.Return, object]] = []   # executed `return` statements, in order
+        self._handling: List[CRaise] = []
+
+    # ------------------------------------------------------------ utilities
+    def _unknown(self, what: str, node=None):
+        raise UnknownIdiom('%s: %s%s' % (self.where, what, (' `%s`' % short(node, 70)) if node is not None else ''))
+
+    def _tick(self):
+        self.steps += 1
+        if self.steps > self.budget:
+            self._unknown('interpretation budget exhausted (loop?)')
+
+    def _guard(self, fn, *a, **kw):
+        """Run a whitelisted stdlib callable; its exceptions become exceptions of the interpreted program."""
+        try:
+            return fn(*a, **kw)
+        except (UnknownIdiom, CRaise, _CReturn):
+            raise
+        except RecursionError:
+            self._unknown('recursion limit inside a library call')
+        except Exception as e:      # noqa: BLE001 - the interpreted program sees it
+            raise CRaise(_exc_qual(e), e)
+
+    def truth(self, v) -> bool:
+        if v is UNK:
+            self._unknown('truth value of an unknown value is needed')
+        if isinstance(v, (CObj, FuncVal, ClassVal, LambdaVal)):
+            return True
+        return bool(v)
+
+    # ------------------------------------------------------------ names
+    def qual_value(self, q: str, node=None):
+        if q in EXTERNALS:
+            return EXTERNALS[q]
+        if q in _HIGHER_ORDER:
+            return ('$ho', q)
+        if q in self.p.funcs:
+            return FuncVal(self.p.funcs[q])
+        if q in self.p.classes:
+            return ClassVal(self.p.classes[q])
+        head, _, tail = q.rpartition('.')
+        m = self.p.modules.get(head)
+        if m is not None and tail in m.consts:
+            if q in self._const_memo:
+                return self._const_memo[q]
+            if q in self._const_active:
+                self._unknown('module constant %s is defined in terms of itself' % q)
+            self._const_active.add(q)
+            try:
+                v = self.ev((m, None), m.consts[tail], {})
+            finally:
+                self._const_active.discard(q)
+            self._const_memo[q] = v
+            return v
+        if head in self.p.classes:
+            c, expr = self.p.lookup_class_attr(head, tail)
+            if expr is not None:
+                return self.ev((c.module, None), expr, {})
+            meth = self.p.lookup_method(head, tail)
+            if meth is not None:
+                return FuncVal(meth)
+        self._unknown('no model for the name %s' % q, node)
+
+    # ------------------------------------------------------------ expressions
+    def ev(self, ctx, e, env):
+        self._tick()
+        m = getattr(self, '_e_' + type(e).__name__, None)
+        if m is None:
+            self._unknown('expression form %s is not interpreted' % type(e).__name__, e)
+        return m(ctx, e, env)
+
+    def _e_Constant(self, ctx, e, env):
+        return e.value
+
+    def _e_Name(self, ctx, e, env):
+        if e.id in env:
+            return env[e.id]
+        q = self.p.resolve_expr(ctx[0], e, ctx[1])
+        if q is None:
+            self._unknown('name %s is not bound here' % e.id, e)
+        return self.qual_value(q, e)
+
+    def _root(self, e):
+        while isinstance(e, ast.Attribute):
+            e = e.value
+        return e
+
+    def _e_Attribute(self, ctx, e, env):
+        root = self._root(e)
+        if isinstance(root, ast.Name) and root.id not in env:
+            q = self.p.resolve_expr(ctx[0], e, ctx[1])
+            if q is not None and self._known(q):
+                return self.qual_value(q, e)
+        return self.getattr(self.ev(ctx, e.value, env), e.attr, e)
+
+    def _known(self, q: str) -> bool:
+        if q in EXTERNALS or q in _HIGHER_ORDER or q in self.p.funcs or q in self.p.classes:
+            return True
+        head, _, tail = q.rpartition('.')
+        m = self.p.modules.get(head)
+        if m is not None and tail in m.consts:
+            return True
+        if head in self.p.classes:
+            return self.p.lookup_class_attr(head, tail)[1] is not None or self.p.lookup_method(head, tail) is not None
+        return False
+
+    def getattr(self, v, name: str, node=None):
+        if v is UNK:
+            return UNK
+        if isinstance(v, CObj):
+            if name in v.attrs:
+                return v.attrs[name]
+            meth = self.p.lookup_method(v.cls.qual, name)
+            if meth is not None:
+                if meth.is_property():
+                    return self.call_func(meth, [v], {})
+                return FuncVal(meth, v)
+            c, expr = self.p.lookup_class_attr(v.cls.qual, name)
+            if expr is not None:
+                return self.ev((c.module, None), expr, {})
+            if self.attr_hook is not None:
+                r = self.attr_hook(v, name)
+                if r is not NotImplemented:
+                    return r
+            return UNK
+        if isinstance(v, ClassVal):
+            c, expr = self.p.lookup_class_attr(v.cls.qual, name)
+            if expr is not None:
+                return self.ev((c.module, None), expr, {})
+            meth = self.p.lookup_method(v.cls.qual, name)
+            if meth is not None:
+                return FuncVal(meth)
+            self._unknown('class attribute %s.%s' % (v.cls.name, name), node)
+        for t, names in _METHODS.items():
+            if isinstance(v, t) and not isinstance(v, bool):
+                if (names is None and hasattr(t, name) and not name.startswith('_')) or (names is not None and name in names):
+                    return ('$bound', v, name)
+        for t, names in _PLAIN_ATTRS.items():
+            if isinstance(v, t) and name in names:
+                return getattr(v, name)
+        self._unknown('attribute .%s of a %s value' % (name, type(v).__name__), node)
+
+    def _e_UnaryOp(self, ctx, e, env):
+        v = self.ev(ctx, e.operand, env)
+        if isinstance(e.op, ast.Not):
+            return not self.truth(v)
+        if v is UNK or isinstance(v, (CObj, FuncVal, ClassVal)):
+            self._unknown('arithmetic on an unknown value', e)
+        if isinstance(e.op, ast.USub):
+            return self._guard(lambda: -v)
+        if isinstance(e.op, ast.UAdd):
+            return self._guard(lambda: +v)
+        if isinstance(e.op, ast.Invert):
+            return self._guard(lambda: ~v)
+        self._unknown('operator', e)
+
+    def _e_BoolOp(self, ctx, e, env):
+        v = None
+        for x in e.values:
+            v = self.ev(ctx, x, env)
+            t = self.truth(v)
+            if isinstance(e.op, ast.And) and not t:
+                return v
+            if isinstance(e.op, ast.Or) and t:
+                return v
+        return v
+
+    _BIN = {ast.Add: lambda a, b: a + b, ast.Sub: lambda a, b: a - b, ast.Mult: lambda a, b: a * b, ast.Div: lambda a, b: a / b,
+            ast.FloorDiv: lambda a, b: a // b, ast.Mod: lambda a, b: a % b, ast.BitOr: lambda a, b: a | b,
+            ast.BitAnd: lambda a, b: a & b, ast.BitXor: lambda a, b: a ^ b}
+
+    def _plain(self, v, node):
+        if v is UNK or isinstance(v, (CObj, FuncVal, ClassVal, LambdaVal)) or (isinstance(v, tuple) and v and v[0] in ('$bound', '$ho')):
+            self._unknown('operator applied to a value that is not plain data', node)
+        return v
+
+    def binop(self, op, a, b, node):
+        self._plain(a, node)
+        self._plain(b, node)
+        fn = self._BIN.get(type(op))
+        if fn is None:
+            self._unknown('operator %s' % type(op).__name__, node)
+        if isinstance(op, ast.Mult):
+            for x, y in ((a, b), (b, a)):
+                if isinstance(x, (str, bytes, list, tuple)) and isinstance(y, int) and len(x) * max(y, 0) > 100000:
+                    self._unknown('sequence repetition too large', node)
+        return self._guard(fn, a, b)
+
+    def _e_BinOp(self, ctx, e, env):
+        return self.binop(e.op, self.ev(ctx, e.left, env), self.ev(ctx, e.right, env), e)
+
+    def _e_Compare(self, ctx, e, env):
+        left = self.ev(ctx, e.left, env)
+        for op, rexp in zip(e.ops, e.comparators):
+            right = self.ev(ctx, rexp, env)
+            if isinstance(op, (ast.Is, ast.IsNot)):
+                if left is UNK or right is UNK:
+                    self._unknown('identity test on an unknown value', e)
+                r = (left is right) if isinstance(op, ast.Is) else (left is not right)
+                if not (left is None or right is None or isinstance(left, bool) or isinstance(right, bool)
+                        or isinstance(left, (CObj, ClassVal)) or isinstance(right, (CObj, ClassVal))):
+                    self._unknown('identity test between two data values (interning is an implementation detail)', e)
+            else:
+                self._plain(left, e)
+                self._plain(right, e)
+                fn = {ast.Eq: lambda a, b: a == b, ast.NotEq: lambda a, b: a != b, ast.Lt: lambda a, b: a < b,
+                      ast.LtE: lambda a, b: a <= b, ast.Gt: lambda a, b: a > b, ast.GtE: lambda a, b: a >= b,
+                      ast.In: lambda a, b: a in b, ast.NotIn: lambda a, b: a not in b}[type(op)]
+                r = self._guard(fn, left, right)
+            if not self.truth(r):
+                return r
+            left = right
+        return r
+
+    def _e_IfExp(self, ctx, e, env):
+        return self.ev(ctx, e.body if self.truth(self.ev(ctx, e.test, env)) else e.orelse, env)
+
+    def _elts(self, ctx, elts, env) -> list:
+        out = []
+        for x in elts:
+            if isinstance(x, ast.Starred):
+                out.extend(self.iterate(self.ev(ctx, x.value, env), x))
+            else:
+                out.append(self.ev(ctx, x, env))
+        return out
+
+    def _e_Tuple(self, ctx, e, env):
+        return tuple(self._elts(ctx, e.elts, env))
+
+    def _e_List(self, ctx, e, env):
+        return self._elts(ctx, e.elts, env)
+
+    def _e_Set(self, ctx, e, env):
+        return self._guard(set, self._elts(ctx, e.elts, env))
+
+    def _e_Dict(self, ctx, e, env):
+        out = {}
+        for k, v in zip(e.keys, e.values):
+            if k is None:
+                d = self.ev(ctx, v, env)
+                if not isinstance(d, dict):
+                    self._unknown('** of a non-dict', e)
+                out.update(d)
+            else:
+                kk = self._plain(self.ev(ctx, k, env), e)
+                out[kk] = self.ev(ctx, v, env)
+        return out
+
+    def _e_JoinedStr(self, ctx, e, env):
+        parts = []
+        for x in e.values:
+            if isinstance(x, ast.Constant):
+                parts.append(str(x.value))
+            else:
+                v = self._plain(self.ev(ctx, x.value, env), e)
+                spec = self._e_JoinedStr(ctx, x.format_spec, env) if x.format_spec is not None else ''
+                if x.conversion == ord('r'):
+                    v = repr(v)
+                elif x.conversion == ord('s'):
+                    v = str(v)
+                elif x.conversion == ord('a'):
+                    v = ascii(v)
+                parts.append(self._guard(format, v, spec))
+        return ''.join(parts)
+
+    def _e_Subscript(self, ctx, e, env):
+        v = self._plain(self.ev(ctx, e.value, env), e)
+        if isinstance(e.slice, ast.Slice):
+            lo, hi, st = [None if x is None else self._plain(self.ev(ctx, x, env), e) for x in (e.slice.lower, e.slice.upper, e.slice.step)]
+            return self._guard(lambda: v[lo:hi:st])
+        k = self._plain(self.ev(ctx, e.slice, env), e)
+        return self._guard(lambda: v[k])
+
+    def _e_Lambda(self, ctx, e, env):
+        return LambdaVal(e, env, ctx)
+
+    def iterate(self, v, node) -> list:
+        if isinstance(v, (str, bytes, list, tuple, dict, set, frozenset, range)):
+            out = list(v)
+        elif type(v).__name__ in ('enumerate', 'zip', 'reversed', 'dict_keys', 'dict_values', 'dict_items', 'list_iterator',
+                                  'list_reverseiterator', 'map', 'filter'):
+            out = list(v)
+        else:
+            self._unknown('iteration over a %s value' % type(v).__name__, node)
+        if len(out) > 10000:
+            self._unknown('iteration too long', node)
+        return out
+
+    def _comp(self, ctx, e, env, emit):
+        def rec(i, env2):
+            if i == len(e.generators):
+                emit(env2)
+                return
+            g = e.generators[i]
+            if g.is_async:
+                self._unknown('async comprehension', e)
+            for item in self.iterate(self.ev(ctx, g.iter, env2), g.iter):
+                env3 = dict(env2)
+                self.bind(ctx, g.target, item, env3)
+                if all(self.truth(self.ev(ctx, c, env3)) for c in g.ifs):
+                    rec(i + 1, env3)
+        rec(0, dict(env))
+
+    def _e_ListComp(self, ctx, e, env):
+        out = []
+        self._comp(ctx, e, env, lambda en: out.append(self.ev(ctx, e.elt, en)))
+        return out
+
+    _e_GeneratorExp = _e_ListComp
+
+    def _e_SetComp(self, ctx, e, env):
+        return self._guard(set, self._e_ListComp(ctx, e, env))
+
+    def _e_DictComp(self, ctx, e, env):
+        out = {}
+
+        def emit(en):
+            out[self._plain(self.ev(ctx, e.key, en), e)] = self.ev(ctx, e.value, en)
+        self._comp(ctx, e, env, emit)
+        return out
+
+    # ------------------------------------------------------------ calls
+    def _e_Call(self, ctx, e, env):
+        fn = self.ev(ctx, e.func, env)
+        args = self._elts(ctx, e.args, env)
+        kwargs = {}
+        for k in e.keywords:
+            if k.arg is None:
+                d = self.ev(ctx, k.value, env)
+                if not isinstance(d, dict):
+                    self._unknown('** of a non-dict', e)
+                kwargs.update(d)
+            else:
+                kwargs[k.arg] = self.ev(ctx, k.value, env)
+        return self.call(fn, args, kwargs, e)
+
+    def call(self, fn, args, kwargs, node=None):
+        self._tick()
+        if self.call_hook is not None:
+            r = self.call_hook(fn, args, kwargs, node)
+            if r is not NotImplemented:
+                return r
+        if isinstance(fn, FuncVal):
+            return self.call_func(fn.func, ([fn.recv] if fn.recv is not None else []) + list(args), kwargs)
+        if isinstance(fn, ClassVal):
+            return self.instantiate(fn.cls, args, kwargs)
+        if isinstance(fn, LambdaVal):
+            return self.ev(fn.ctx, fn.node.body, self._bind_args(fn.node.args, fn.ctx, args, kwargs, fn.env, fn.node))
+        if isinstance(fn, tuple) and fn and fn[0] == '$ho':
+            if kwargs or len(args) != 2:
+                self._unknown('call of %s' % fn[1], node)
+            items = self.iterate(args[1], node)
+            if fn[1] == 'builtins.filter':
+                if args[0] is None:
+                    return [x for x in items if self.truth(x)]
+                return [x for x in items if self.truth(self.call(args[0], [x], {}, node))]
+            return [self.call(args[0], [x], {}, node) for x in items]
+        if isinstance(fn, tuple) and fn and fn[0] == '$bound':
+            _, recv, name = fn
+            for a in list(args) + list(kwargs.values()):
+                self._data(a, node)
+            if isinstance(recv, str) and name in ('format', 'format_map'):
+                pass
+            if isinstance(recv, re.Pattern) and name in ('sub', 'subn') and args and not isinstance(args[0], (str, bytes)):
+                self._unknown('callable replacement in %s' % name, node)
+            if isinstance(recv, list) and name == 'sort' and kwargs.get('key') is not None:
+                self._unknown('sort with a key', node)
+            return self._guard(getattr(recv, name), *args, **kwargs)
+        if fn is UNK:
+            self._unknown('call of an unknown value', node)
+        if callable(fn) and id(fn) in _EXT_CALLABLE_IDS:
+            for a in list(args) + list(kwargs.values()):
+                self._data(a, node)
+            if fn in (re.sub, re.subn) and len(args) >= 2 and not isinstance(args[1], (str, bytes)):
+                self._unknown('callable replacement in re.sub', node)
+            if fn in (sorted, min, max) and kwargs.get('key') is not None:
+                self._unknown('key= function', node)
+            if fn is isinstance and not (len(args) == 2 and (isinstance(args[1], type) or (isinstance(args[1], tuple) and all(isinstance(t, type) for t in args[1])))):
+                self._unknown('isinstance against a class of the analysed tree', node)
+            return self._guard(fn, *args, **kwargs)
+        self._unknown('call of a value that is not modelled', node)
+
+    def _data(self, v, node):
+        """Arguments handed to library code must be plain data (nothing that could call back)."""
+        if v is UNK or isinstance(v, (CObj, FuncVal, ClassVal, LambdaVal)):
+            self._unknown('a non-data value is passed to library code', node)
+        if isinstance(v, tuple) and v and v[0] in ('$bound', '$ho'):
+            self._unknown('a bound method is passed to library code', node)
+        if isinstance(v, (list, tuple, set, frozenset)):
+            for x in v:
+                self._data(x, node)
+        elif isinstance(v, dict):
+            for k, x in v.items():
+                self._data(x, node)
+
+    def instantiate(self, cls: Class, args, kwargs):
+        if self.p.is_subclass(cls.qual, 'builtins.BaseException'):
+            raise_q = cls.qual
+            return ('$exc', raise_q, args)
+        obj = CObj(cls)
+        init = self.p.lookup_method(cls.qual, '__init__')
+        if init is not None:
+            self.call_func(init, [obj] + list(args), kwargs)
+        elif args or kwargs:
+            self._unknown('%s() takes arguments but has no __init__ in the analysed tree' % cls.name)
+        return obj
+
+    def _bind_args(self, a: ast.arguments, ctx, args, kwargs, base_env, node):
+        if a.vararg or a.kwarg:
+            self._unknown('*args/**kwargs parameters', node)
+        env = dict(base_env)
+        pos = [x.arg for x in a.posonlyargs + a.args]
+        if len(args) > len(pos):
+            raise CRaise('builtins.TypeError')
+        for nm, v in zip(pos, args):
+            env[nm] = v
+        kwonly = [x.arg for x in a.kwonlyargs]
+        for k, v in kwargs.items():
+            if k in env or (k not in pos and k not in kwonly) or k in [x.arg for x in a.posonlyargs]:
+                raise CRaise('builtins.TypeError')
+            env[k] = v
+        defaults = dict(zip(pos[len(pos) - len(a.defaults):], a.defaults))
+        defaults.update({x.arg: d for x, d in zip(a.kwonlyargs, a.kw_defaults) if d is not None})
+        for nm in pos + kwonly:
+            if nm not in env:
+                if nm not in defaults:
+                    raise CRaise('builtins.TypeError')
+                env[nm] = self.ev((ctx[0], None), defaults[nm], {})
+        return env
+
+    def call_func(self, f: Func, args, kwargs):
+        self._tick()
+        if f.is_async or any(isinstance(n, (ast.Yield, ast.YieldFrom)) for n in walk_self(f.node)):
+            self._unknown('%s is a coroutine/generator' % f.qual)
+        keep = {'staticmethod', 'classmethod', 'property', 'abc.abstractmethod', 'abstractmethod', 'overload', 'typing.overload'}
+        if any(d not in keep for d in f.decorators):
+            self._unknown('%s is decorated (%s)' % (f.qual, ', '.join(f.decorators)))
+        if 'staticmethod' in f.decorators and f.cls is not None and args and isinstance(args[0], CObj):
+            args = args[1:]
+        ctx = (f.module, f)
+        env = self._bind_args(f.node.args, ctx, args, kwargs, {}, f.node)
+        try:
+            self.block(ctx, f.node.body, env)
+        except _CReturn as r:
+            return r.value
+        return None
+
+    # ------------------------------------------------------------ statements
+    def bind(self, ctx, target, value, env):
+        if isinstance(target, ast.Name):
+            env[target.id] = value
+        elif isinstance(target, (ast.Tuple, ast.List)):
+            items = self.iterate(value, target)
+            if any(isinstance(t, ast.Starred) for t in target.elts):
+                self._unknown('starred assignment target', target)
+            if len(items) != len(target.elts):
+                raise CRaise('builtins.ValueError')
+            for t, v in zip(target.elts, items):
+                self.bind(ctx, t, v, env)
+        elif isinstance(target, ast.Attribute):
+            o = self.ev(ctx, target.value, env)
+            if not isinstance(o, CObj):
+                self._unknown('attribute store on a %s value' % type(o).__name__, target)
+            o.attrs[target.attr] = value
+        elif isinstance(target, ast.Subscript) and not isinstance(target.slice, ast.Slice):
+            o = self.ev(ctx, target.value, env)
+            if not isinstance(o, (list, dict)):
+                self._unknown('item store on a %s value' % type(o).__name__, target)
+            k = self._plain(self.ev(ctx, target.slice, env), target)
+            self._guard(o.__setitem__, k, value)
+        else:
+            self._unknown('assignment target', target)
+
+    def block(self, ctx, stmts, env):
+        for s in stmts:
+            self.stmt(ctx, s, env)
+
+    def stmt(self, ctx, s, env):
+        self._tick()
+        if isinstance(s, ast.Expr):
+            self.ev(ctx, s.value, env)
+        elif isinstance(s, ast.Assign):
+            v = self.ev(ctx, s.value, env)
+            for t in s.targets:
+                self.bind(ctx, t, v, env)
+        elif isinstance(s, ast.AnnAssign):
+            if s.value is not None:
+                self.bind(ctx, s.target, self.ev(ctx, s.value, env), env)
+        elif isinstance(s, ast.AugAssign):
+            cur = self.ev(ctx, ast.copy_location(_as_load(s.target), s.target), env)
+            self.bind(ctx, s.target, self.binop(s.op, cur, self.ev(ctx, s.value, env), s), env)
+        elif isinstance(s, ast.Return):
+            v = self.ev(ctx, s.value, env) if s.value is not None else None
+            if ctx[1] is not None:
+                self.returns.append((ctx[1], s, v))
+            raise _CReturn(v)
+        elif isinstance(s, ast.If):
+            self.block(ctx, s.body if self.truth(self.ev(ctx, s.test, env)) else s.orelse, env)
+        elif isinstance(s, ast.Pass):
+            pass
+        elif isinstance(s, ast.Assert):
+            if not self.truth(self.ev(ctx, s.test, env)):
+                raise CRaise('builtins.AssertionError')
+        elif isinstance(s, ast.Raise):
+            self._raise(ctx, s, env)
+        elif isinstance(s, ast.Try):
+            self._try(ctx, s, env)
+        elif isinstance(s, ast.For):
+            broke = False
+            for item in self.iterate(self.ev(ctx, s.iter, env), s.iter):
+                self.bind(ctx, s.target, item, env)
+                try:
+                    self.block(ctx, s.body, env)
+                except _CBreak:
+                    broke = True
+                    break
+                except _CContinue:
+                    continue
+            if not broke:
+                self.block(ctx, s.orelse, env)
+        elif isinstance(s, ast.While):
+            broke = False
+            while self.truth(self.ev(ctx, s.test, env)):
+                self._tick()
+                try:
+                    self.block(ctx, s.body, env)
+                except _CBreak:
+                    broke = True
+                    break
+                except _CContinue:
+                    continue
+            if not broke:
+                self.block(ctx, s.orelse, env)
+        elif isinstance(s, ast.Break):
+            raise _CBreak()
+        elif isinstance(s, ast.Continue):
+            raise _CContinue()
+        elif isinstance(s, (ast.Import, ast.ImportFrom)):
+            self._unknown('import inside a function', s)
+        else:
+            self._unknown('statement form %s is not interpreted' % type(s).__name__, s)
+
+    def _raise(self, ctx, s: ast.Raise, env):
+        if s.exc is None:
+            if not self._handling:
+                raise CRaise('builtins.RuntimeError')
+            raise self._handling[-1]
+        v = self.ev(ctx, s.exc, env)
+        if isinstance(v, ClassVal):
+            v = self.instantiate(v.cls, [], {})
+        if isinstance(v, tuple) and v and v[0] == '$exc':
+            raise CRaise(v[1])
+        if isinstance(v, CRaise):
+            raise v
+        if isinstance(v, type) and issubclass(v, BaseException):
+            v = self._guard(v)
+        if isinstance(v, BaseException):
+            raise CRaise(_exc_qual(v), v)
+        self._unknown('raise of a value that is not an exception', s)
+
+    def _catches(self, ctx, h: ast.ExceptHandler, exc: CRaise) -> bool:
+        if h.type is None:
+            return True
+        for t in (h.type.elts if isinstance(h.type, ast.Tuple) else [h.type]):
+            q = self.p.resolve_expr(ctx[0], t, ctx[1])
+            if q is None:
+                self._unknown('except clause names something that does not resolve', t)
+            r = self.p.is_subclass(exc.qual, q)
+            if r is None:
+                if exc.exc is not None and q in EXTERNALS and isinstance(EXTERNALS[q], type):
+                    r = isinstance(exc.exc, EXTERNALS[q])
+                else:
+                    self._unknown('cannot decide whether %s is caught by' % exc.qual, t)
+            if r:
+                return True
+        return False
+
+    def _try(self, ctx, s: ast.Try, env):
+        try:
+            try:
+                self.block(ctx, s.body, env)
+            except CRaise as exc:
+                for h in s.handlers:
+                    if self._catches(ctx, h, exc):
+                        if h.name:
+                            env[h.name] = exc
+                        self._handling.append(exc)
+                        try:
+                            self.block(ctx, h.body, env)
+                        finally:
+                            self._handling.pop()
+                        break
+                else:
+                    raise
+            else:
+                self.block(ctx, s.orelse, env)
+        finally:
+            if s.finalbody:
+                self.block(ctx, s.finalbody, env)
+
+
+def _as_load(t):
+    import copy
+    t2 = copy.copy(t)
+    t2.ctx = ast.Load()
+    return t2
+
+
+def originating_return(returns) -> Optional[Tuple[Func, ast.Return]]:
+    """Of the executed `return`s (in order), the one that produced the final
+    value: the last one, followed back through `return <call>` delegations to
+    the callee's own return of the same value."""
+    if not returns:
+        return None
+    i = len(returns) - 1
+    while i > 0 and isinstance(returns[i][1].value, ast.Call) and returns[i - 1][2] is returns[i][2] and returns[i - 1][0] is not returns[i][0]:
+        i -= 1
+    return returns[i][0], returns[i][1]
+
+
+# ---- what the built-in converters are documented to accept ----------------------------------------------------------
+# key = identifier in falcon.routing.converters.BUILTIN (the name used in URI templates, public contract).
+# Each oracle: (reason | None, value).  The conversion primitive (int/float/strptime/uuid.UUID) decides; on top of it come
+# the documented options and the ONE screening that is part of the converters' tested behaviour:
+
+SCREEN_WS = 'padded with whitespace'   # int()/float() would accept ' 1'; the converters reject it (tests/test_uri_converters.py)
+
+
+def _o_int(opts, s):
+    try:
+        v = int(s)
+    except ValueError:
+        return 'int() rejects it', None
+    if s.strip() != s:
+        return SCREEN_WS, None
+    nd = opts.get('num_digits')
+    if nd is not None and len(s) != nd:
+        return 'num_digits', None
+    if opts.get('min') is not None and v < opts['min']:
+        return 'min', None
+    if opts.get('max') is not None and v > opts['max']:
+        return 'max', None
+    return None, v
+
+
+def _o_float(opts, s):
+    import math
+    try:
+        v = float(s)
+    except ValueError:
+        return 'float() rejects it', None
+    if s.strip() != s:
+        return SCREEN_WS, None
+    if opts.get('finite', True) and not math.isfinite(v):
+        return 'finite', None
+    if opts.get('min') is not None and v < opts['min']:
+        return 'min', None
+    if opts.get('max') is not None and v > opts['max']:
+        return 'max', None
+    return None, v
+
+
+def _o_dt(opts, s):
+    import datetime
+    try:
+        return None, datetime.datetime.strptime(s, opts.get('format_string', '%Y-%m-%dT%H:%M:%S%z'))
+    except ValueError:
+        return 'strptime() rejects it', None
+
+
+def _o_uuid(opts, s):
+    import uuid
+    try:
+        return None, uuid.UUID(s)
+    except ValueError:
+        return 'uuid.UUID() rejects it', None
+
+
+def _o_path(opts, segs):
+    return None, '/'.join(segs)
+
+
+_U = '6f9619ff-8b86-d011-b42d-00c04fc964ff'
+CONVERTER_ORACLES = {
+    'int': {
+        'oracle': _o_int,
+        'configs': [{}, {'num_digits': 1}, {'num_digits': 3}, {'min': 0}, {'max': 0}, {'min': -5, 'max': 5}, {'num_digits': 2, 'min': 10, 'max': 20}],
+        'probes': ['0', '7', '12', '15', '123', '007', '+5', '-3', '-12', '+12', '1_000', '1_0', '１２', '١٢', ' 1', '1 ', '\t2', '1\n',
+                   ' 12', '', ' ', 'abc', '1.5', '0x10', '1e3', '--1', '+', '12a', '1' * 20, '9' * 70, '-' + '9' * 30],
+        'numeric': True,
+    },
+    'float': {
+        'oracle': _o_float,
+        'configs': [{}, {'finite': False}, {'min': 0.0}, {'max': 0.0}, {'min': -1.5, 'max': 1.5, 'finite': False}],
+        'probes': ['0', '1', '1.5', '-2.25', '+3.', '.5', '1e3', '1E-2', '-1e-3', '1_0.5', 'inf', '-inf', '+inf', 'nan', 'Infinity', 'NaN', '1e400',
+                   ' 1.5', '1.5 ', '\n1', '', 'abc', '1,5', '0x1p3', '١.٥', '1' * 40, '0.' + '3' * 40, '-0.0', '1e', '.'],
+        'numeric': True,
+    },
+    'dt': {
+        'oracle': _o_dt,
+        'configs': [{}, {'format_string': '%Y-%m-%d'}, {'format_string': '%Y-%m-%dT%H:%M:%SZ'}, {'format_string': '%d.%m.%Y %H:%M'}],
+        'probes': ['2017-07-21T16:09:08Z', '2017-07-21T16:09:08+0200', '2017-07-21T16:09:08+02:00', '2017-07-21T16:09:08-0330',
+                   '2017-07-21', '2017-7-1', '17-07-21', '2017-7-1T1:2:3Z', '2017-07-21T16:09:08', '', 'garbage', '2017-02-30T00:00:00Z',
+                   ' 2017-07-21T16:09:08Z', '2017-07-21T16:09:08Z ', '2017-07-21t16:09:08z', '2017-13-01', '0001-01-01', '9999-12-31',
+                   '21.07.2017 16:09', '1.7.2017 6:9', '21.07.2017  16:09', '21.07.17 16:09', '31.02.2017 00:00'],
+        'numeric': False,
+    },
+    'uuid': {
+        'oracle': _o_uuid,
+        'configs': [{}],
+        'probes': [_U, _U.upper(), '6F9619ff-8b86-D011-b42d-00C04fc964FF', _U.replace('-', ''), _U.replace('-', '').upper(), '{' + _U + '}',
+                   '{' + _U.upper() + '}', 'urn:uuid:' + _U, 'urn:uuid:' + _U.upper(), 'URN:UUID:' + _U, '6f9619ff8b86-d011b42d-00c04fc964ff',
+                   '00000000-0000-0000-0000-000000000000', 'ffffffff-ffff-ffff-ffff-ffffffffffff', 'FFFFFFFFFFFFFFFFFFFFFFFFFFFFFFFF',
+                   _U[:-1], _U + '0', _U.replace('6', 'g'), '', ' ' + _U, _U + ' ', _U + '\n', 'not-a-uuid', '12345'],
+        'numeric': False,
+    },
+    'path': {
+        'oracle': _o_path,
+        'configs': [{}],
+        'probes': [[], [''], ['a'], ['a', 'b'], ['a', '', 'b'], ['', ''], ['a', ''], ['', 'a'], ['a b'], ['%2F', '.'], ['..', 'x'], ['A', 'b.json']],
+        'numeric': False,
+    },
+}
+
+FIND_PROBES = ['/', '', '/a', '/a/b', '/a/b/', '/a//b', '//a', '///', '/a///b//', 'a/b', '/A/b', '/a b/c', '/a/./b', '/a/../b', '/a%2Fb',
+               '/a/b?x=1', '/ä/ü', '/a\\b', '/a/b ', ' /a', '/a;p/b', '/.', '/a.json', '/a/b#f', '/a\tb', '/a/\n', '/a/b//', '//', '/a/+/b']
+
+
+def same_value(a, b) -> bool:
+    return type(a) is type(b) and repr(a) == repr(b)
+
+
+# ---- provenance of the segment list (witness text for R14) -----------------------------------------------------------
+
+def path_provenance(project: Project, f: Func, param: str):
+    """c15's Provenance, taught the two shapes a path normalisation is usually
+    written in that its tables do not list: methods of a module-level compiled
+    pattern (`_RX.sub(repl, uri)`, `_RX.split(uri)`) and a comprehension /
+    filter over the split result."""
+    from .c15_helpers import Origin, Provenance
+
+    class PathProvenance(Provenance):
+        def classify(self, e, nid):
+            if isinstance(e, (ast.ListComp, ast.GeneratorExp)) and len(e.generators) == 1:
+                src = self.classify(e.generators[0].iter, nid)
+                if src.derived:
+                    return src.step('rewrite', e, 'filters / re-maps the segments')
+                return Origin()
+            return super().classify(e, nid)
+
+        def _call(self, c, nid):
+            fn = c.func
+            if isinstance(fn, ast.Attribute) and isinstance(fn.value, ast.Name) and fn.attr in ('sub', 'subn', 'split', 'findall'):
+                v = self.f.module.consts.get(fn.value.id)
+                if isinstance(v, ast.Call) and self.p.resolve_expr(self.f.module, v.func) == 're.compile':
+                    inner = Origin()
+                    for a in c.args:
+                        inner = inner.merge(self.classify(a, nid))
+                    if inner.derived:
+                        return inner.step('rewrite', c, 'regular-expression %s' % fn.attr)
+                    return Origin()
+            if isinstance(fn, ast.Name) and fn.id in ('list', 'tuple', 'filter') and c.args:
+                q = self.p.resolve_expr(self.f.module, fn, self.f)
+                if q in ('builtins.list', 'builtins.tuple') and len(c.args) == 1 and not c.keywords:
+                    return self.classify(c.args[0], nid)
+                if q == 'builtins.filter' and len(c.args) == 2:
+                    src = self.classify(c.args[1], nid)
+                    return src.step('rewrite', c, 'filters the segments') if src.derived else Origin()
+            return super()._call(c, nid)
+
+    return PathProvenance(project, f, param)
